@@ -285,7 +285,8 @@ def _free(kind, reply, opt, parents):
             nodes += [W.d('/v/p/q/deep'), W.d('/v/p')]
         td = '/v/.Trash-1000'
         for j, loc in enumerate(FREE_LOCS):
-            nodes += K.trashed(td, 'f%d' % j, K.quote(loc[len('/v/'):]), '2020-01-0%dT00:00:00' % (j + 1), K.KINDS[(kind + j) % 6], 2000 + 20 * j)
+            # (the third entry carries an ABSOLUTE Path although it lives in a $topdir trash directory: allowed by the spec)
+            nodes += K.trashed(td, 'f%d' % j, K.quote(loc if j == 2 else loc[len('/v/'):]), '2020-01-0%dT00:00:00' % (j + 1), K.KINDS[(kind + j) % 6], 2000 + 20 * j)
         world = W.W(mounts=K.MOUNTS, cwd='/v', nodes=nodes)
         rp, want = FREE_REPLIES[reply]
         m, res = scen.run_model(world, [{'snap': '/'}, C('restore', FREE_OPTS[opt] + ['/v'], scen.env(), stdin=[rp], cwd='/v/w'), {'snap': '/'}])
